@@ -50,6 +50,8 @@ def case_strategy(draw, tier):
         # there, and a range of total mass 0 can not be normalised)
         fp = {"kind": "table", "seed": draw(st.integers(0, 10 ** 6))}
     loader = draw(st.sampled_from(["split", "split", "delta", "delta"]))
+    if fp["kind"] == "table" and draw(st.integers(0, 3)) == 3:
+        fp["int_until"] = draw(st.integers(1, 3))
     if fp["kind"] == "table" and low < 100 and draw(st.integers(0, 3)) == 3:
         # a degree function may vanish on some degrees inside the range (e.g. even degrees only)
         fp["zero_mod"] = draw(st.sampled_from([[2, 1], [3, 1], [3, 2]]))
@@ -86,7 +88,14 @@ def check(case):
     spec = case["fp"]
     if spec["kind"] == "table":
         zm = spec.get("zero_mod")
-        f = lambda k, s=spec["seed"]: 0.0 if (zm and int(k) % zm[0] == zm[1]) else positive(s, int(k))
+        iu = spec.get("int_until", 0)  # a tabulated, unnormalised law may hold plain ints next to floats
+
+        def f(k, s=spec["seed"]):
+            if zm and int(k) % zm[0] == zm[1]:
+                return 0.0 if not iu else 0
+            if int(k) < low + iu:
+                return 1 + (s + int(k)) % 3
+            return positive(s, int(k))
     elif spec["kind"] == "exponential":
         f = exponential(spec["a"])
     else:
@@ -107,7 +116,7 @@ def check(case):
     else:
         p[JN.JOINT_DEGREE_TYPE] = typ if case["path"] == "dispatch_enum" else typ.value
         obj = call("dispatch", JointDegreeDistribution.load_joint_degree, p)
-    if type(obj) is not cls:
+    if not isinstance(obj, cls):
         raise Violation("dispatch-class", f"built {type(obj).__name__}")
     jdd = obj.jdd
     for k, v in jdd.items():
